@@ -28,6 +28,8 @@ def gen_cases(tier, seed):
     for mod, cls in schema.all_classes():
         cases.append({"id": "%s.%s" % (mod.__name__, cls.__name__), "sig": [mod.__name__, cls.__name__],
                       "module": mod.__name__, "cls": cls.__name__, "shapes": shapes})
+    for order in ["forward", "reverse", "bases-first", "derived-first"] + ["shuffled-%d" % k for k in range(2 if tier == "quick" else 12)]:
+        cases.append({"id": "sweep-%s" % order, "sig": ["sweep", order], "kind": "sweep", "order": order})
     return cases
 
 
@@ -99,7 +101,7 @@ def _spec_order_problems(root, problems, counter):
 def _expected_child_tags(obj):
     from saml2_tophat import ExtensionElement
     tags = []
-    for member in obj._get_all_c_children_with_order():
+    for member in schema.members_in_order(obj.__class__):
         v = getattr(obj, member, None)
         if v is None:
             continue
@@ -120,7 +122,7 @@ def _walk_order(obj, elem, path, problems):
         problems.append("%s: emitted child order %r, table order gives %r" % (path, got, want))
         return
     kids = []
-    for member in obj._get_all_c_children_with_order():
+    for member in schema.members_in_order(obj.__class__):
         v = getattr(obj, member, None)
         if v is None:
             continue
@@ -146,10 +148,45 @@ def classify(cls, x, y, diff):
 
 def run_case(case, ctx):
     import importlib
+    if case.get("kind") == "sweep":
+        # all classes in one process in a given order: class-level state shared through inheritance (caches, tables patched at import) must not
+        # make the result depend on what was serialised before
+        pairs = schema.all_classes()
+        order = list(range(len(pairs)))
+        if case["order"] == "reverse":
+            order.reverse()
+        elif case["order"].startswith("shuffled"):
+            random.Random("%s/%s" % (ctx.seed, case["id"])).shuffle(order)
+        elif case["order"] == "bases-first":
+            order.sort(key=lambda i: (len(pairs[i][1].__mro__), i))
+        elif case["order"] == "derived-first":
+            order.sort(key=lambda i: (-len(pairs[i][1].__mro__), i))
+        viol, counters, sigs = [], {}, []
+        for i in order:
+            mod, cls = pairs[i]
+            sub = {"id": "%s.%s" % (mod.__name__, cls.__name__), "module": mod.__name__, "cls": cls.__name__, "shapes": 1}
+            r = check_class(sub, ctx, "%s/%s" % (case["order"], sub["id"]))
+            for v in r["violations"]:
+                v = dict(v)
+                v["what"] = "[sweep order %s] %s" % (case["order"], v["what"])
+                viol.append(v)
+            for k, n in r["counters"].items():
+                counters[k] = counters.get(k, 0) + n
+            sigs.extend([["sweep", case["order"]] + sg for sg in r.get("sigs", [])])
+        uniq = {}
+        for v in viol:
+            uniq.setdefault(v["key"] + v["what"][:90], v)
+        return {"outcome": "violations" if viol else "roundtrip-ok", "nontrivial": bool(sigs), "violations": list(uniq.values())[:12], "counters": counters,
+                "sigs": sigs, "evals": counters.get("roundtrips", 0), "obs": {"order": case["order"], "classes": len(order)}}
+    return check_class(case, ctx, case["id"])
+
+
+def check_class(case, ctx, rng_key):
+    import importlib
     import saml2_tophat
     mod = importlib.import_module(case["module"])
     cls = getattr(mod, case["cls"])
-    rng = random.Random("%s/%s" % (ctx.seed, case["id"]))
+    rng = random.Random("%s/%s" % (ctx.seed, rng_key))
     viol, counters, sigs = [], {}, []
 
     def hit(k, n=1):
@@ -261,7 +298,7 @@ def _count_foreign(obj):
         return (0, 0)
     ne = len([e for e in (obj.extension_elements or []) if e.namespace == "urn:verif:foreign"])
     na = len([a for a in (obj.extension_attributes or {}) if a.startswith("{urn:verif:foreign}")])
-    for member in obj._get_all_c_children_with_order():
+    for member in schema.members_in_order(obj.__class__):
         v = getattr(obj, member, None)
         if v is None:
             continue
@@ -273,7 +310,7 @@ def _count_foreign(obj):
 
 def finalize(cases, results, tier, extras):
     inc = []
-    mods = set(c["module"] for c in cases)
+    mods = set(c["module"] for c in cases if "module" in c)
     if len(cases) < 1000:
         inc.append("only %d element classes discovered (expected ~1150): introspection lost modules" % len(cases))
     rt = sum(r.get("counters", {}).get("roundtrips", 0) for r in results)
